@@ -7,14 +7,14 @@ LEVEL = "fault_enumeration"
 
 def run(ctx):
     bits = {1024, 2048} if ctx.quick else {1024, 2048, 4096}
-    chan_info(ctx, bits)
+    chan_info(ctx, bits, main_bits={4096})     # the padding size family needs a receiver key above 2048 bits (two size bytes)
     if ctx.quick:
         pairs = {(1024, 1024), (1024, 2048), (2048, 2048)}
         nrand = 40
     else:
         pairs = {(1024, 1024), (1024, 2048), (2048, 1024), (2048, 2048), (2048, 4096), (4096, 2048), (4096, 4096)}
-        nrand = 2000
-    consts = {"KeyPairs": pairs, "NRand": nrand}
+        nrand = 1000
+    consts = {"KeyPairs": pairs, "PadKeyPairs": pairs | {(2048, 4096)}, "NRand": nrand}
 
     def sig(v, c):
         return "C09:%s" % v["clause"]
@@ -27,7 +27,10 @@ def run(ctx):
         rule="TLC enumerates malformed-shape class (truncated message / security header, declared size larger / smaller than the "
              "chunk, unknown / null policy uri, null / empty / garbage / truncated sender certificate, null / 19-byte / 21-byte / "
              "foreign receiver thumbprint, cipher text one byte longer / shorter / absent, plain text or message shorter than its "
-             "signature, padding size larger than the message, inconsistent padding bytes, foreign signature / MAC, other token "
+             "signature, padding size larger than the message, inconsistent padding bytes, the padding size boundary family (size 0, 1, the "
+             "ordinary one, end-2, end-1, end, end+1, 255 / 65535 relative to the number of bytes in front of the signature, for one and "
+             "two size bytes = receiver keys up to and above 2048 bits, tiny and ordinary chunks, each correctly signed and encrypted "
+             "over the hand-built plain text), foreign signature / MAC, other token "
              "id, symmetric chunk before keys exist, OPN on a channel without certificate / private key, and the valid chunk) x "
              "chunk kind OPN / MSG / CLO x receiving role x policy x mode x key sizes, checks that the specified receiver is a total "
              "decision into {chunk, error} with the named classes security errors; the harness builds each shape from the parts "
